@@ -59,3 +59,9 @@ prop("C12", lambda t, s: [("mc", "NackAlg", n(t, "McNack", "McNackThorough")), (
 
 prop("C13", lambda t, s: [("mc", "TwccAlg", n(t, "McTwcc", "McTwccThorough")), ("drive", "twccfuzz", n(t, 3000, 100000)), ("drive", "fuzz", n(t, 400, 10000))],
      exhaustive_note="McTwcc enumerates every status sequence of length 0..5 (thorough: 0..7) over {not received, small, large} in every chunking (run-length splits, 1-bit and 2-bit vectors, run-length overshoot 1 and 8191), plus two-run sequences with run lengths straddling 7 and 14 in six systematic chunkings")
+
+prop("C14", lambda t, s: [("mc", "RembAlg", n(t, "McRemb", "McRembThorough")), ("mc", "Mc", "McWireRemb"), ("drive", "rembrand", n(t, 300, 20000))],
+     exhaustive_note="McRemb steps the decoder loop on 53 structured mantissas x 5 exponents and the encoder loop on 128 boundary floats, and emits the complete 2^18 mantissa table at exponent 0 (thorough: at 0, 1, 31, 62, 63) plus the structured rows at 6 (thorough: all 64) exponents; the scaling lemma RowOK extends the exponent-0 table to the other exponents")
+
+prop("C15", lambda t, s: [("mc", "XrWalk", n(t, "McXr", "McXrThorough")), ("mc", "Mc", "McWireXr"), ("drive", "xrrand", n(t, 1500, 60000))],
+     exhaustive_note="McXr enumerates every sequence of 0..2 (thorough: 0..3) report blocks over 17 block choices (the 7 defined kinds, unknown types 0, 8, 255 with different contents, empty and longer lists, other flag combinations) and walks each encoding with an independent block walker; McWireXr sweeps the XR star domain")
